@@ -95,6 +95,17 @@ def part_a(tier, seed, out):
                     f["body"].append(bsyntax.Decl(bsyntax.C("Pt"), "nul", bsyntax.Null()))
                     f["body"].append(bsyntax.Echo(bsyntax.Fld(bsyntax.Var("nul"), "v")))
         jobs.append({"id": i, "src": bsyntax.render(p), "gc": "timer:1", "want": ["events_all"], "timeout_ms": 60000})
+    # allocation AFTER the timer has been stopped: objects that only the final collection releases (an exempt owner of a
+    # tracked qubit inside an unreachable ring) and whose destructor allocates; normal end and error end
+    LATE = ("class Rep { public string t; public constructor(string x) -> Rep { this.t = x; } }\n"
+            "class Probe { @tracked public qubit q; public string id; public constructor(string i) -> Probe { this.id = i; }\n"
+            "  public destructor() -> void { Rep r = new Rep(\"probe \" + this.id); echo(r.t); Rep r2 = new Rep(\"x\"); } }\n"
+            "class Ring { public Ring next; public Probe probe; public constructor() -> Ring { this.next = null; this.probe = null; } }\n"
+            "function build(string id) -> void { Ring a = new Ring(); Ring b = new Ring(); a.next = b; b.next = a; a.probe = new Probe(id); }\n"
+            "function main() -> void { build(\"p0\"); %s echo(\"built\"); %s }\n")
+    for k, (mid, tail) in enumerate((("", ""), ("build(\"p1\"); int s = 0; for (int i = 0; i < 30; i = i + 1) { Rep t = new Rep(\"z\"); s = s + 1; }", ""),
+                                     ("", "Ring nul = null; echo(nul.next == null);"), ("Probe direct = new Probe(\"d\");", ""))):
+        jobs.append({"id": len(jobs), "src": LATE % (mid, tail), "gc": "timer:1", "want": ["events_all"], "timeout_ms": 60000})
     proc_err = []
     res = runner.run_jobs(jobs, variant="tsan", procs=8, env={"TSAN_OPTIONS": "halt_on_error=0:exitcode=0:report_signal_unsafe=0"},
                           per_job_timeout=90, stderr_out=proc_err)
@@ -155,9 +166,27 @@ def part_a(tier, seed, out):
             else:
                 raise vlib.Infra("GcTrace: %s\n%s" % (r.violated, r.out[-2000:]))
         elif not accepted:
-            # rejected: find the longest explained prefix for the report
-            out.violation("the recorded timer/interpreter event log is not a behaviour of GcProtocol (trace rejected)",
-                          {"trace_tail": open(tf).read()[-4000:], "tlc": r.out[-1500:]}, "trace")
+            # rejected: validate each run's log on its own to name the run that is not a behaviour of the protocol
+            runs = [x for x in open(tf).read().split('{"e":"reset","th":0}\n') if x.strip()]
+
+            def one(k):
+                tfk = os.path.join(tmp, "run%d.ndjson" % k)
+                with open(tfk, "w") as fk:
+                    fk.write(runs[k] + '{"e":"reset","th":0}\n')
+                rk = vlib.tlc("GcTrace.tla", os.path.join(vlib.SPEC, "GcTrace.cfg"), env={"GC_TRACE": tfk}, workers=1, timeout=600,
+                              java_opts=["-Dtlc2.tool.queue.IStateQueue=StateDeque"], heap="2g")
+                return rk.violated == "NotAccepted"
+            import concurrent.futures as cf
+            with cf.ThreadPoolExecutor(max_workers=8) as ex:
+                oks = list(ex.map(one, range(len(runs))))
+            logged = [i for i in range(len(jobs)) if res[i].get("shots") and res[i]["status"] != "crash"]
+            rejected = [k for k, ok in enumerate(oks) if not ok]
+            for k in rejected[:3]:
+                prog = jobs[logged[k]]["src"] if k < len(logged) else ""
+                out.violation("the timer/interpreter event log of a run is not a behaviour of GcProtocol (trace rejected)",
+                              {"what": "event log rejected by GcTrace.tla", "events": runs[k].split("\n"), "program": prog}, "trace%d" % k)
+            if not rejected:
+                raise vlib.Infra("concatenated log rejected but every single run accepted")
             races += 1
     finally:
         shutil.rmtree(tmp, ignore_errors=True)
